@@ -403,8 +403,18 @@ func gString(G []gnode) string {
 // by the repository's own benchmark); readerFor returns that reader
 var earlyReaders = map[*text.File]*text.Reader{}
 
+// mkFile creates a text.File from a buffer the caller then re-uses: a file keeps the content it was created with
+func mkFile(name string, content []byte) *text.File {
+	buf := append(make([]byte, 0, len(content)+8), content...)
+	f := text.NewFile(name, buf)
+	for i := range buf {
+		buf[i] = 'z' - byte(i%3)
+	}
+	return f
+}
+
 func fileAt(content []byte, base int) (*text.File, *parsley.FileSet) {
-	f := text.NewFile("f", content)
+	f := mkFile("f", content)
 	if base <= 1 {
 		return f, parsley.NewFileSet(f)
 	}
